@@ -516,6 +516,25 @@ def oracleC03 (p : Parsed) (fs : List (String × String)) : Option String :=
       if endS.startsWith "hdr:" && cb != "-" then some "message data next to a trailers-only end" else none
   | _ => none
 
+/-- C13: when no conversion applies (or no endpoint matches and an unknown-endpoint handler
+    exists) the whole observation is that of untouched forwarding. -/
+def oracleC13 (p : Parsed) (res : List String) : Option String :=
+  let expect (d : Dispatch) (o : Option Op) : Option String :=
+    let ob := forwardObs p.sc d
+    let ob := match o with
+      | some o => if o.sform == .grpc then { ob with backend := { ob.backend with protoMajor := 2 } } else ob
+      | none => ob
+    let want := parseFields ((renderObs p ob).splitOn " ")
+    let got := parseFields res
+    let bad := want.filter fun (k, v) => fieldOf got k != v
+    match bad with
+    | [] => none
+    | (k, _) :: _ => some s!"forwarded request/response was altered (field {k})"
+  match validate fakeWorld p.sc.conf p.sc.req with
+  | .error .notFound => if p.sc.conf.unknownHandler then expect .unknown none else none
+  | .ok o => if o.passThrough then expect .svc (some o) else none
+  | _ => none
+
 def specE2E (prop : String) (hexJson : String) (res : List String) : String :=
   match (fromHex hexJson).bind (fun b => (Json.parse (bytesToString b)).toOption) |>.bind parseScenario with
   | none => "nospec"
@@ -526,6 +545,7 @@ def specE2E (prop : String) (hexJson : String) (res : List String) : String :=
       | "C11" => some (oracleC11 fs)
       | "C18" => some (oracleC18 p fs)
       | "C03" => some (oracleC03 p fs)
+      | "C13" => some (oracleC13 p res)
       | _ => none
     match r with
     | none => "nospec"
